@@ -932,7 +932,7 @@ class Container:
             volume, unit = Unit.convert_from_storage_to_standard_format(self, self.max_volume)
             volume = round(volume,
                            config.precisions[unit] if unit in config.precisions else config.precisions['default'])
-            df.loc['Maximum Volume'] = [volume, '-', '-', '-']
+            df.loc['Maximum Volume'] = [f"{volume} {unit}", '-', '-', '-']
         totals = {'L': 0, 'g': 0, 'mol': 0, 'U': 0}
         for substance, value in self.contents.items():
             columns = []
